@@ -13,6 +13,8 @@ def run(ctx):
     RR.rating_confinement(ctx, "R07.c")
     RT.candidate_cap(ctx, "R06.b", minimum=10)
     RR.bounded_selection(ctx, "R06.a")
+    RR.search_chain_shape(ctx, "R06.a", parts=("order", "score", "comparator"))
+    RT.postings_unconditional(ctx, "R18.g")
     RR.per_record_purity(ctx, "R06.e")
     return info("R07.a: every comparator handed to a selection (compare_hits, the empty-query closure, the candidate closure) "
                 "is a lexicographic composition of Ord::cmp on the same integer/char projection of both arguments, hence a "
